@@ -277,6 +277,8 @@ def correspondence(ctx):
             k = ctx.rng.randint(3, 12)
             pool = LETTERS if ctx.rng.random() < 0.6 else alpha_all
             letters = [ctx.rng.choice(pool) for _ in range(k)]
+            # a too-low frame without PossDupFlag ends the session: keep most histories alive longer
+            letters = [L if (L not in ("app-1", "logout@") or ctx.rng.random() < 0.3) else "app@" for L in letters]
             steps = run_letters(impl, st, letters)
             for s in steps:
                 S.note_stats(stats, S.parse_conn_tokens(s[3]), s[1], s[4], "hist:" + s[2])
@@ -542,21 +544,27 @@ def oracle(ctx, disagreements, broken):
                     steps += [(s[0], s[1], s[2], s[3], s[4], s[5]) for s in _continue(impl, a2, ["app@", "app@", "app@"])]
                     run_and_check(a, steps)
         # 4 search: exhaustive short histories + random ones
+        import itertools
         depth = 3 if not broken else 4
-        alpha = LETTERS
-        for name, st in start_states():
-            import itertools
-            for letters in itertools.product(alpha, repeat=depth):
-                if stats["events"] > ctx.n(60000, 400000) * (3 if broken else 1):
+        sts = start_states()
+        if ctx.tier == "quick" and not broken:
+            sts = [x for i, x in enumerate(sts) if i % 2 == (i // 2) % 2]  # 6 of the 12 (both roles occur)
+        budget = ctx.n(30000, 400000) * (4 if broken else 1)
+        for name, st in sts:
+            for letters in itertools.product(LETTERS, repeat=depth):
+                if stats["events"] > budget:
                     break
                 run_and_check(st, run_letters(impl, st, list(letters)))
-        nrand = ctx.n(1500, 10000) * (4 if broken else 1)
-        pool = LETTERS + EXTRA_LETTERS
+        nrand = ctx.n(1000, 10000) * (4 if broken else 1)
+        pool = LETTERS + LETTERS + EXTRA_LETTERS
         names = sorted(starts)
         for _ in range(nrand):
             st = starts[ctx.rng.choice(names)]
             k = ctx.rng.randint(2, 14)
-            run_and_check(st, run_letters(impl, st, [ctx.rng.choice(pool) for _ in range(k)]))
+            letters = [ctx.rng.choice(pool) for _ in range(k)]
+            # a too-low frame without PossDupFlag ends the session: keep most histories alive longer
+            letters = [L if (L not in ("app-1", "logout@") or ctx.rng.random() < 0.3) else "app@" for L in letters]
+            run_and_check(st, run_letters(impl, st, letters))
     finally:
         impl.close()
     stats["failures"] = len(failures)
